@@ -12,6 +12,8 @@ pub const FAMILIES: &[(&str, u64)] = &[("aranges", 10), ("addr", 6), ("str", 4),
 
 pub fn families_for(prop: &str) -> Vec<(&'static str, u64)> {
     match prop {
+        "C04" => vec![("line", 30), ("info", 10)],
+        "C08" => vec![("lists", 30), ("info", 10)],
         _ => FAMILIES.to_vec(),
     }
 }
